@@ -59,6 +59,8 @@ def cases(tier, rng, boost=1):
     yield _mk([[0, 1, 2, 3, 2, 1, 0]], [[1, 1, 2, 2, 2, 1, 1]],
               [{'op': 'access', 'acc': 'getitem', 'k': 0, 'npint': False}, {'op': 'access', 'acc': 'getitem', 'k': 0, 'npint': True},
                {'op': 'access', 'acc': 'trajs'}], 'list_of_arrays', src='corpus')
+    yield _mk([list(range(100)) * 2, list(range(200)) + list(range(199, -1, -1))], None,
+              [{'op': 'access', 'acc': 'trajs'}, {'op': 'access', 'acc': 'index_trajs'}, {'op': 'access', 'acc': 'states'}], 'first_narrow', src='corpus')
     n = {'quick': 700, 'thorough': 8000, 'search': 2000}[tier] * boost
     for _ in range(n):
         ns = rng.randint(1, 6)
@@ -90,6 +92,9 @@ def _arrays(trajs, form, rng):
         return ls, ls
     if form == 'mixed_arrays':
         arrs = gen.as_arrays(trajs, rng, mixed=True)
+        return arrs, arrs
+    if form == 'first_narrow':
+        arrs = [np.array(t, dtype=(gen.min_dtype([t]) if i == 0 else np.int64)) for i, t in enumerate(trajs)]
         return arrs, arrs
     arrs = [np.array(t, dtype=np.int64) for t in trajs]
     return arrs, arrs
